@@ -34,6 +34,11 @@ def make_input(rng, n, n_pol):
     if rng.integers(2):
         t = np.arange(n)
         s = s * np.exp(-((t - n / 2) / (n / rng.uniform(4, 16))) ** 2)
+    k = int(rng.integers(8))
+    if k == 0:
+        s = np.real(s).copy()                    # real-dtype field
+    elif k == 1:
+        s = rng.integers(-9, 10, shape)          # integer-dtype field
     return T.optical_signal(s)
 
 
@@ -70,8 +75,8 @@ def w_grating(ctx, rng, i):
     n = int(rng.choice([256, 512, 1024] if ctx.tier == "quick" else [256, 512, 1024, 2048, 4096]))
     n_pol = int(rng.integers(1, 3))
     x = make_input(rng, n, n_pol)
-    kL = float(rng.uniform(0.1, 8))
-    vdneff = float(10 ** rng.uniform(-5, -3))
+    kL = float(rng.uniform(0.1, 8)) if i % 10 else float([0.1, 8.0][i // 10 % 2])
+    vdneff = float(10 ** rng.uniform(-5, -3)) if i % 14 else float([1e-5, 1e-3][i // 14 % 2])
     chirped = bool(rng.integers(3) == 0)
     F = float(rng.uniform(-20, 20)) if chirped else 0
     apo_name = str(rng.choice(["uniform", "rcos", "gaussian", "parabolic", "custom"]))
